@@ -92,7 +92,17 @@ B2 = b"second chain\n" * 3
 T0 = None
 
 
-def sample_pack():
+def sample_pack(full=False):
+    if full:
+        # add_pack_data takes parsed entries whose names are known, i.e. full objects
+        blob0 = B0
+        tree = b"100644 f\0" + obj_id(b"blob", blob0)
+        commit = b"tree " + obj_id(b"tree", tree).hex().encode() + b"\nauthor a <a@x> 0 +0000\ncommitter a <a@x> 0 +0000\n\nm\n"
+        ents = [{"kind": "full", "type": 3, "data": blob0}, {"kind": "full", "type": 2, "data": tree}, {"kind": "full", "type": 1, "data": commit},
+                {"kind": "full", "type": 3, "data": B2}]
+        data, offs = raw_pack(ents)
+        ids = [obj_id(b"blob", blob0), obj_id(b"tree", tree), obj_id(b"commit", commit), obj_id(b"blob", B2)]
+        return data, [i.hex().encode() for i in ids]
     blob0 = B0
     tree = b"100644 f\0" + obj_id(b"blob", blob0)
     commit = b"tree " + obj_id(b"tree", tree).hex().encode() + b"\nauthor a <a@x> 0 +0000\ncommitter a <a@x> 0 +0000\n\nm\n"
@@ -114,6 +124,13 @@ def mutate(base, m):
         b = bytearray(base)
         b[m[1]] ^= 1 << m[2]
         return bytes(b)
+    if k == "bytefix":              # damage inside the body with the trailer recomputed, so that the checksum does not catch it
+        b = bytearray(base[:-20])
+        b[m[1]] = m[2]
+        return bytes(b) + hashlib.sha1(bytes(b)).digest()
+    if k == "truncfix":             # whole entries cut off, trailer recomputed (the object count is then too high)
+        b = base[:m[1]]
+        return b + hashlib.sha1(b).digest()
     if k == "trunc":
         return base[:m[1]]
     if k == "tail":
@@ -169,7 +186,7 @@ def check_store(store, before_ids, claimed):
 
 
 def pack_sweep(req):
-    base, ids = sample_pack()
+    base, ids = sample_pack(full=req["path"].endswith("add_pack_data"))
     path = req["path"]
     out = {"classes": {}, "violations": [], "tmp_leaks": 0, "slow": 0, "n": 0}
     d = tempfile.mkdtemp(prefix="verif-c04-", dir=os.environ.get("VERIF_SCRATCH") or None)
@@ -189,19 +206,20 @@ def pack_sweep(req):
                 changed, badhash = False, []
             else:
                 rp = os.path.join(d, "r%d" % out["n"])
-                if path == "memory":
+                mem = path.startswith("memory")
+                if mem:
                     store = MemoryObjectStore()
                 else:
                     os.makedirs(rp)
                     store = DiskObjectStore.init(rp)
                 before_ids = set(store)
-                before_files = listing(rp) if path != "memory" else []
+                before_files = listing(rp) if not mem else []
 
                 def run():
                     f = io.BytesIO(data)
                     if path in ("thin", "memory"):
                         store.add_thin_pack(f.read, None)
-                    elif path == "add_pack":
+                    elif path in ("add_pack", "memory_add_pack"):
                         pf, commit, abort = store.add_pack()
                         try:
                             pf.write(data)
@@ -209,8 +227,8 @@ def pack_sweep(req):
                             abort()
                             raise
                         commit()
-                    elif path == "add_pack_data":
-                        from dulwich.pack import PackData, UnpackedObject
+                    elif path in ("add_pack_data", "memory_add_pack_data"):
+                        from dulwich.pack import PackData
                         pd = PackData.from_file(io.BytesIO(data), SHA1, len(data))
                         store.add_pack_data(len(pd), pd.iter_unpacked(include_comp=True))
                     return len(set(store) - before_ids)
@@ -218,8 +236,8 @@ def pack_sweep(req):
                 try:
                     after_ids = set(store)
                     badhash = check_store(store, before_ids, ids) if cls == "ok" else []
-                    changed = cls != "ok" and (after_ids != before_ids or (path != "memory" and listing(rp) != before_files))
-                    if path != "memory" and tmpfiles(rp):
+                    changed = cls != "ok" and (after_ids != before_ids or (not mem and listing(rp) != before_files))
+                    if not mem and tmpfiles(rp):
                         out["tmp_leaks"] += 1
                 except Exception as e:  # noqa: BLE001
                     changed, badhash = False, ["store unreadable after the attempt: " + type(e).__name__]
@@ -228,7 +246,7 @@ def pack_sweep(req):
                         store.close()
                     except Exception:  # noqa: BLE001
                         pass
-                    if path != "memory":
+                    if not mem:
                         shutil.rmtree(rp, ignore_errors=True)
             out["classes"][cls] = out["classes"].get(cls, 0) + 1
             if dt > 5:
@@ -273,16 +291,73 @@ def graph(req):
     data, offs = raw_pack(ents)
     d = tempfile.mkdtemp(prefix="verif-c04g-", dir=os.environ.get("VERIF_SCRATCH") or None)
     try:
-        store = DiskObjectStore.init(d)
+        store = DiskObjectStore.init(d) if req.get("store", "disk") == "disk" else MemoryObjectStore()
         store.add_object(ext)
         before = set(store)
         files = listing(d)
-        cls, v, dt = classify(lambda: store.add_thin_pack(io.BytesIO(data).read, None))
+        path = req.get("path", "thin")
+
+        def ingest():
+            if path == "thin":
+                store.add_thin_pack(io.BytesIO(data).read, None)
+            elif path == "add_pack":
+                pf, commit, abort = store.add_pack()
+                try:
+                    pf.write(data)
+                except BaseException:
+                    abort()
+                    raise
+                commit()
+            else:
+                from dulwich.pack import PackData
+                pd = PackData.from_file(io.BytesIO(data), SHA1, len(data))
+                store.add_pack_data(len(pd), pd.iter_unpacked(include_comp=True))
+        cls, v, dt = classify(ingest)
         after = set(store)
         res = {"cls": cls, "new": len(after - before), "changed_on_failure": cls != "ok" and (after != before or listing(d) != files),
                "all_present": all(obj_id(b"blob", x).hex().encode() in after for x in datas), "bad": check_store(store, before, []) if cls == "ok" else []}
         store.close()
         return res
+    finally:
+        shutil.rmtree(d, ignore_errors=True)
+
+
+def crafted_read(req):
+    """a pack whose entries are full objects or REF deltas naming one another by made-up ids, installed together with
+    an index that lists those ids: reading entry i through the store must end, as the object or as an error"""
+    from dulwich.pack import write_pack_index_v2
+    spec = req["entries"]
+    fake = [hashlib.sha1(b"entry %d" % i).digest() for i in range(len(spec) + 8)]
+    datas = [b"object number %d\n" % i * 3 for i in range(len(spec))]
+    ents = []
+    for i, e in enumerate(spec):
+        if e == "f":
+            ents.append({"kind": "full", "type": 3, "data": datas[i]})
+        else:
+            b = int(e[1:])
+            if b < i and req.get("ofs"):
+                ents.append({"kind": "ofs", "back": i - b, "base_data": datas[b], "data": datas[i]})
+            else:
+                ents.append({"kind": "ref", "base": fake[min(b, len(fake) - 1)], "base_data": datas[b] if b < len(spec) else b"none", "data": datas[i]})
+    data, offs = raw_pack(ents)
+    d = tempfile.mkdtemp(prefix="verif-c04r-", dir=os.environ.get("VERIF_SCRATCH") or None)
+    try:
+        DiskObjectStore.init(d).close()
+        base = os.path.join(d, "pack", "pack-" + hashlib.sha1(data[:-20]).hexdigest())
+        with open(base + ".pack", "wb") as f:
+            f.write(data)
+        with open(base + ".idx", "wb") as f:
+            write_pack_index_v2(f, sorted((fake[i], offs[i], 0) for i in range(len(spec))), data[-20:])
+        out = []
+        for i in range(len(spec)):
+            store = DiskObjectStore(d)
+            cls, v, dt = classify(lambda: store.get_raw(fake[i].hex().encode()))
+            if cls == "ok":
+                content = b"".join(v[1]) if isinstance(v[1], list) else v[1]
+                cls = "ok:same" if content == datas[i] else "ok:other"
+            out.append(cls)
+            store.close()
+        return {"reads": out}
     finally:
         shutil.rmtree(d, ignore_errors=True)
 
@@ -384,8 +459,12 @@ def file_sweep(req):
         shutil.rmtree(d, ignore_errors=True)
 
 
+def sample_size_full(req):
+    return {"size": len(sample_pack(full=True)[0])}
+
+
 def sample_size(req):
     return {"size": len(sample_pack()[0])}
 
 
-HANDLERS = {"pack_sweep": pack_sweep, "graph": graph, "file_sweep": file_sweep, "sample_size": sample_size}
+HANDLERS = {"pack_sweep": pack_sweep, "graph": graph, "file_sweep": file_sweep, "sample_size": sample_size, "crafted_read": crafted_read, "sample_size_full": sample_size_full}
